@@ -52,6 +52,13 @@ def catalogue(rng):
         # an operator that has all it needs while BOTH its thread-backed inputs are still running: the first pair already differs
         ("sequence_equal(interval,interval+1)", ["op", "sequence_equal", [], iv, ["op", "map", [["add", 1]], ["interval", d + 1]]], d + 1, None),
         ("contains(interval)", ["op", "contains", [1], iv], d, None),
+        # a materialized Complete ends the stream while the other materialized ticker is still running
+        ("dematerialize(merge(materialize(take(interval)),materialize(interval)))",
+         ["op", "dematerialize", [], ["op", "merge", [], ["op", "materialize", [], ["op", "take", [k], iv]], ["op", "materialize", [], ["interval", d + 1]]]], d + 1, None),
+        # a thread-backed source SHARED through ref_count / replay whose sole subscriber leaves on an item delivered during the connect
+        ("take(ref_count(merge(interval,just)))", ["op", "take", [1], ["conn", 0]], d, None, [["conn", "refcount", ["op", "merge", [], iv, ["just", 9]]]]),
+        ("take(ref_count(interval))", ["op", "take", [k], ["conn", 0]], d, None, [["conn", "refcount", iv]]),
+        ("ref_count(interval)+unsub", ["conn", 0], d, "unsub", [["conn", "refcount", iv]]),
         ("all(interval)", ["op", "all", [["lt", 1]], iv], d, None),
     ]
     return out
@@ -79,7 +86,9 @@ def generate(rng, tier, seed):
     thorough = tier == "thorough"
     cases = []
     for _ in range(10 if thorough else 5):
-        for nm, pipe, period, cause in catalogue(rng):
+        for entry in catalogue(rng):
+            nm, pipe, period, cause = entry[:4]
+            extra_objs = entry[4] if len(entry) > 4 else []
             for repeat in (1, 3):
                 base = seed * 1000 + rng.randrange(1000)
                 threads = []
@@ -89,7 +98,7 @@ def generate(rng, tier, seed):
                     threads.append(["u", ["sleep", rng.choice([0, 1, period + 1, 2 * period + 1])], ["unsub", 0]])
                 if repeat == 3 and cause is None:
                     fini = [["sleep", 200], ["sub", 1, 0], ["sleep", 200], ["sub", 2, 0]]
-                scn = ["conc", ["objects", ["pipe", pipe]], ["init"] + init, ["threads"] + threads, ["fini"] + fini,
+                scn = ["conc", ["objects"] + extra_objs + [["pipe", pipe]], ["init"] + init, ["threads"] + threads, ["fini"] + fini,
                        ["sched", "random", base, 12 if thorough else 5]]
                 cases.append({"scn": scn, "name": nm + ("+unsub" if cause and "unsub" not in nm else "") + (" x3" if fini else ""), "period": period, "users": 3 if fini else 1})
         for nm, pipe, period, emit, cause in hot_catalogue(rng):
